@@ -588,3 +588,256 @@ theorem dfs_good (hG1 : Gen.Lenient.resolve1Guard = true) (hG : Gen.Lenient.page
             · exact dgood_ok _ _ _ (fun x hx => List.mem_cons_of_mem _ hx)
 
 end PdfVerif.Lenient
+
+namespace PdfVerif.Lenient
+open PdfVerif
+
+/-! ### get_widths -/
+
+/-- Every range entry lies inside the CID range. -/
+def Clamped : List WEntry → Prop
+  | [] => True
+  | .run _ _ :: tl => Clamped tl
+  | .range c1 c2 _ :: tl => 0 ≤ c1 ∧ c2 ≤ Gen.Lenient.maxCid ∧ Clamped tl
+
+theorem widthStep_clamped (v : Obj) (r : List Obj) (e : WEntry) (r' : List Obj)
+    (h : widthStep v r = (some e, r')) : Clamped [e] := by
+  unfold widthStep at h
+  split at h
+  · split at h
+    · simp only [Prod.mk.injEq, Option.some.injEq] at h
+      rw [← h.1]; simp [Clamped]
+    · simp at h
+  · split at h
+    · split at h
+      · split at h
+        · simp only [Prod.mk.injEq, Option.some.injEq] at h
+          rw [← h.1]
+          simp only [Clamped, and_true]
+          constructor
+          · exact Int.le_max_right _ _
+          · exact Int.min_le_right _ _
+        · simp at h
+      · simp at h
+    · simp at h
+
+theorem getWidthsLoop_spec (hG : Gen.Lenient.resolve1Guard = true) (strict : Bool) (g : Graph) :
+    ∀ (seq r : List Obj), Allowed (getWidthsLoop strict g seq r) ∧
+      ∀ ws, getWidthsLoop strict g seq r = .ok ws → ws.length ≤ seq.length ∧ Clamped ws := by
+  intro seq
+  induction seq with
+  | nil =>
+    intro r
+    simp only [getWidthsLoop]
+    refine ⟨trivial, ?_⟩
+    intro ws h
+    simp only [Except.ok.injEq] at h
+    subst h
+    simp [Clamped]
+  | cons v rest ih =>
+    intro r
+    simp only [getWidthsLoop]
+    rcases resolve1_ok_or_value hG strict g v with ⟨v', hv⟩ | hv <;> rw [hv]
+    · cases hstep : widthStep v' r with
+      | mk oe r' =>
+        cases oe with
+        | none =>
+          simp only [hstep]
+          have := ih r'
+          refine ⟨this.1, ?_⟩
+          intro ws h
+          have := this.2 ws h
+          simp only [List.length_cons]
+          exact ⟨by omega, this.2⟩
+        | some e =>
+          simp only [hstep]
+          have hrec := ih r'
+          cases hl : getWidthsLoop strict g rest r' with
+          | error e' =>
+            rw [hl] at hrec
+            simp only [hl]
+            exact ⟨hrec.1, by intro ws h; cases h⟩
+          | ok tl =>
+            simp only [hl]
+            refine ⟨trivial, ?_⟩
+            intro ws h
+            simp only [Except.ok.injEq] at h
+            subst h
+            have := hrec.2 tl hl
+            have hc := widthStep_clamped v' r e r' hstep
+            simp only [List.length_cons]
+            refine ⟨by omega, ?_⟩
+            cases e with
+            | run c ws' => simpa [Clamped] using this.2
+            | range c1 c2 w =>
+              simp only [Clamped, and_true] at hc
+              exact ⟨hc.1, hc.2, this.2⟩
+    · exact ⟨isFamily_pdfValueError, by intro ws h; cases h⟩
+
+/-- A clamped result costs at most `MAX_CID + 1` assignments per range, plus the lengths of the run arrays. -/
+theorem widthsWork_le : ∀ (ws : List WEntry), Clamped ws →
+    widthsWork ws ≤ (Gen.Lenient.maxCid + 1).toNat * ws.length + runTotal ws
+  | [], _ => by simp [widthsWork, runTotal]
+  | .run c l :: tl, h => by
+    have := widthsWork_le tl (by simpa [Clamped] using h)
+    simp only [widthsWork, runTotal, List.length_cons]
+    rw [Nat.mul_succ]
+    omega
+  | .range c1 c2 w :: tl, h => by
+    simp only [Clamped] at h
+    have := widthsWork_le tl h.2.2
+    have h1 := h.1
+    have h2 := h.2.1
+    simp only [widthsWork, runTotal, List.length_cons]
+    rw [Nat.mul_succ]
+    have : (c2 + 1 - c1).toNat ≤ (Gen.Lenient.maxCid + 1).toNat := by omega
+    omega
+
+end PdfVerif.Lenient
+
+namespace PdfVerif.Lenient
+open PdfVerif
+
+/-! ### resolve_all: bound on the recursion depth -/
+
+theorem depth_le_depthList : ∀ (xs : List Obj) (x : Obj), x ∈ xs → x.depth ≤ depthList xs
+  | [], _, h => by cases h
+  | y :: ys, x, h => by
+    simp only [depthList]
+    cases List.mem_cons.mp h with
+    | inl h => subst h; exact Nat.le_max_left _ _
+    | inr h => exact Nat.le_trans (depth_le_depthList ys x h) (Nat.le_max_right _ _)
+
+theorem depth_le_graphDepth : ∀ (g : Graph) (n : Nat) (y : Obj), g.lookup n = some y → y.depth ≤ graphDepth g
+  | [], _, _, h => by simp [List.lookup] at h
+  | (k, o) :: g, n, y, h => by
+    simp only [graphDepth]
+    by_cases hk : n = k
+    · subst hk
+      simp only [List.lookup, beq_self_eq_true, Option.some.injEq] at h
+      subst h
+      exact Nat.le_max_left _ _
+    · have : (n == k) = false := by simpa using hk
+      simp only [List.lookup, this] at h
+      exact Nat.le_trans (depth_le_graphDepth g n y h) (Nat.le_max_right _ _)
+
+/-- Depth needed from a state: every object not yet on the path may still be entered once and walked
+through its whole nesting; plus what is left of the current value. -/
+def raMeasure (g : Graph) (path : List Nat) (x : Obj) : Nat :=
+  unvisited g path * (graphDepth g + 1) + x.depth + 1
+
+/-- The only error `resolve_all` can end with, given enough depth fuel, is the STRICT circular-reference error. -/
+def RAGood (strict : Bool) (g : Graph) (fuel : Nat) : Prop :=
+  ∀ (path : List Nat) (x : Obj), raMeasure g path x ≤ fuel →
+    ∀ e, resolveAllFuel strict g fuel path x = .error e → e = .pdfValueError
+
+theorem resolveAllList_good (strict : Bool) (g : Graph) (fuel : Nat) (hA : RAGood strict g fuel)
+    (path : List Nat) : ∀ (xs : List Obj), (∀ x ∈ xs, raMeasure g path x ≤ fuel) →
+      ∀ e, resolveAllList strict g fuel path xs = .error e → e = .pdfValueError
+  | [], _, e, h => by simp [resolveAllList] at h
+  | x :: xs, hx, e, h => by
+    simp only [resolveAllList, bind, Except.bind] at h
+    cases h1 : resolveAllFuel strict g fuel path x with
+    | error e1 =>
+      simp only [h1] at h
+      cases h
+      exact hA path x (hx x (List.mem_cons_self ..)) e h1
+    | ok y =>
+      simp only [h1] at h
+      cases h2 : resolveAllList strict g fuel path xs with
+      | error e2 =>
+        simp only [h2] at h
+        cases h
+        exact resolveAllList_good strict g fuel hA path xs (fun z hz => hx z (List.mem_cons_of_mem _ hz)) e h2
+      | ok ys => simp [h2, pure, Except.pure] at h
+
+theorem resolveAllKvs_good (strict : Bool) (g : Graph) (fuel : Nat) (hA : RAGood strict g fuel)
+    (path : List Nat) : ∀ (kvs : List (String × Obj)), (∀ kv ∈ kvs, raMeasure g path kv.2 ≤ fuel) →
+      ∀ e, resolveAllKvs strict g fuel path kvs = .error e → e = .pdfValueError
+  | [], _, e, h => by simp [resolveAllKvs] at h
+  | (k, x) :: xs, hx, e, h => by
+    simp only [resolveAllKvs, bind, Except.bind] at h
+    cases h1 : resolveAllFuel strict g fuel path x with
+    | error e1 =>
+      simp only [h1] at h
+      cases h
+      exact hA path x (hx (k, x) (List.mem_cons_self ..)) e h1
+    | ok y =>
+      simp only [h1] at h
+      cases h2 : resolveAllKvs strict g fuel path xs with
+      | error e2 =>
+        simp only [h2] at h
+        cases h
+        exact resolveAllKvs_good strict g fuel hA path xs (fun z hz => hx z (List.mem_cons_of_mem _ hz)) e h2
+      | ok ys => simp [h2, pure, Except.pure] at h
+
+theorem depthKvs_le : ∀ (kvs : List (String × Obj)) (kv : String × Obj), kv ∈ kvs → kv.2.depth ≤ depthKvs kvs
+  | [], _, h => by cases h
+  | (k, y) :: ys, kv, h => by
+    simp only [depthKvs]
+    cases List.mem_cons.mp h with
+    | inl h => subst h; exact Nat.le_max_left _ _
+    | inr h => exact Nat.le_trans (depthKvs_le ys kv h) (Nat.le_max_right _ _)
+
+theorem resolveAll_good (hG : Gen.Lenient.resolveAllGuard = true) (strict : Bool) (g : Graph) :
+    ∀ fuel, RAGood strict g fuel := by
+  intro fuel
+  induction fuel with
+  | zero =>
+    intro path x hm
+    unfold raMeasure at hm
+    omega
+  | succ f ih =>
+    intro path x hm e he
+    unfold raMeasure at hm
+    cases x with
+    | ref n =>
+      simp only [resolveAllFuel, hG, Bool.true_and] at he
+      by_cases hc : path.contains n = true
+      · rw [if_pos hc] at he
+        cases strict <;> simp at he
+        exact he.symm
+      · rw [if_neg hc] at he
+        cases hl : g.lookup n with
+        | none => simp [hl] at he
+        | some y =>
+          simp only [hl] at he
+          have hnot : n ∉ path := by simpa using hc
+          have hdec := unvisited_strict g path n (by simp [hl]) hnot
+          have hd := depth_le_graphDepth g n y hl
+          apply ih (n :: path) y _ e he
+          unfold raMeasure
+          have : (unvisited g (n :: path) + 1) * (graphDepth g + 1) ≤ unvisited g path * (graphDepth g + 1) :=
+            Nat.mul_le_mul_right _ hdec
+          rw [Nat.add_mul] at this
+          simp only [Obj.depth] at hm
+          omega
+    | arr xs =>
+      simp only [resolveAllFuel, bind, Except.bind] at he
+      cases hl : resolveAllList strict g f path xs with
+      | error e' =>
+        simp only [hl] at he
+        cases he
+        apply resolveAllList_good strict g f ih path xs _ e hl
+        intro z hz
+        have := depth_le_depthList xs z hz
+        unfold raMeasure
+        simp only [Obj.depth] at hm
+        omega
+      | ok ys => simp [hl, pure, Except.pure] at he
+    | dict kvs =>
+      simp only [resolveAllFuel, bind, Except.bind] at he
+      cases hl : resolveAllKvs strict g f path kvs with
+      | error e' =>
+        simp only [hl] at he
+        cases he
+        apply resolveAllKvs_good strict g f ih path kvs _ e hl
+        intro z hz
+        have := depthKvs_le kvs z hz
+        unfold raMeasure
+        simp only [Obj.depth] at hm
+        omega
+      | ok ys => simp [hl, pure, Except.pure] at he
+    | _ => simp [resolveAllFuel] at he
+
+end PdfVerif.Lenient
